@@ -143,6 +143,7 @@ def apalache(work, name, module, init, inv, length, timeout=300):
     jtmp = os.path.join(d, "jtmp")
     os.makedirs(jtmp, exist_ok=True)
     env["JAVA_TOOL_OPTIONS"] = (env.get("JAVA_TOOL_OPTIONS", "") + " -Djava.io.tmpdir=" + jtmp).strip()
+    env["TMPDIR"] = jtmp      # the apalache-mc wrapper creates its SANY directory with mktemp -t: keep it out of /tmp
     cmd = ["apalache-mc", "check", "--init=" + init, "--inv=" + inv, "--length=%d" % length,
            "--out-dir=" + os.path.join(d, "out"), "--run-dir=" + os.path.join(d, "rundir"), module + ".tla"]
     rc, out, wall = run(cmd, cwd=d, timeout=timeout, env=env)
